@@ -18,8 +18,9 @@ U1    == <<58,49,46,49>>   \* ":1.1"
 I1    == <<97,46,73>>      \* "a.I"
 M1    == <<77>>            \* "M"
 
-(* "", "a", "'", ",", "\", "a'b,c", "='" *)
-Tricky == {<<>>, <<97>>, <<39>>, <<44>>, <<92>>, <<97,39,98,44,99>>, <<61,39>>}
+(* "", "a", "'", ",", "\", "a'b,c", "='", and two values with multi-byte UTF-8 characters *)
+Tricky == {<<>>, <<97>>, <<39>>, <<44>>, <<92>>, <<97,39,98,44,99>>, <<61,39>>,
+           <<90,195,188>>, <<226,130,172>>}      \* "Zü" (2-byte character), "€" (3-byte): positions are bytes, not characters
 (* more: "\'", "''", "'\''" (the escape sequence itself as a value), ",'" *)
 Tricky2 == {<<92,39>>, <<39,39>>, <<39,92,39,39>>, <<44,39>>}
 
